@@ -14,6 +14,15 @@ Record xenv := mkX { x_sto : Z -> Z; x_cd : mem }.
 
 Definition identity_call (m : mem) (ao al ro rl : Z) : mem := mwrite m ro (mread m ao (Z.to_nat (Z.min al rl))).
 
+(* repeat: [evb] evaluates the body; the loop variable is pushed on / popped from the environment each iteration *)
+Fixpoint rep_loop (evb : st -> res (Z * st)) (i : string) (k : nat) (j : Z) (s : st) : res (Z * st) :=
+  match k with
+  | O => RVal (0, s)
+  | S k' => match evb (mkSt ((i, j) :: s_env s) (s_mem s)) with
+            | RVal (_, s2) => rep_loop evb i k' (j + 1) (mkSt (tl (s_env s2)) (s_mem s2))
+            | o => o end
+  end.
+
 Fixpoint evx (X : xenv) (fuel : nat) (e : sx) (s : st) : res (Z * st) :=
   match fuel with
   | O => RFuel
@@ -68,13 +77,7 @@ Fixpoint evx (X : xenv) (fuel : nat) (e : sx) (s : st) : res (Z * st) :=
                 match evx X fu cnt s with
                 | RVal (c, s1) =>
                     if bound <? c then RRevert else
-                    (fix loop (k : nat) (j : Z) (s : st) : res (Z * st) :=
-                       match k with
-                       | O => RVal (0, s)
-                       | S k' => match evx X fu body (mkSt ((i, j) :: s_env s) (s_mem s)) with
-                                 | RVal (_, s2) => loop k' (j + 1) (mkSt (tl (s_env s2)) (s_mem s2))
-                                 | o => o end
-                       end) (Z.to_nat c) start s1
+                    rep_loop (evx X fu body) i (Z.to_nat c) start s1
                 | o => o end
             | _ => RStuck "repeat" end
           else
